@@ -216,24 +216,28 @@ Definition substitute (t : table) (pos : list (nat * nat)) (vals : list bool) : 
   fold_left (fun t pv => table_set t (fst (fst pv)) (snd (fst pv)) (snd pv)) (combine pos vals) t.
 
 (* the loop over itertools.product((False, True), repeat=k); the table is mutated in place,
-   every substitution overwrites all k positions *)
+   every substitution overwrites all k positions; `best` is (result, result_size) *)
+Fixpoint model_loop (d : db) (t0 : table) (pos : list (nat * nat)) (excl : option (list gtype))
+         (subs : list (list bool)) (best : option (circuit * nat)) : dbres (option (circuit * nat)) :=
+  match subs with
+  | [] => DbOk best
+  | s :: rest =>
+    dbdo oc <- get_by_raw_truth_table d (substitute t0 pos s);
+    match oc with
+    | None => model_loop d t0 pos excl rest best
+    | Some c =>
+      let sz := gates_number c excl in
+      match best with
+      | None => model_loop d t0 pos excl rest (Some (c, sz))
+      | Some (_, bsz) =>
+        if (sz <? bsz)%nat then model_loop d t0 pos excl rest (Some (c, sz))
+        else model_loop d t0 pos excl rest best
+      end
+    end
+  end.
+
 Definition get_by_raw_truth_table_model (d : db) (tm : table_model) (excl : option (list gtype))
   : dbres (option circuit) :=
   let pos := undefined_positions tm in
-  let t0 := defined_table tm in
-  dbdo r <- (fix loop (subs : list (list bool)) (best : option (circuit * nat)) : dbres (option (circuit * nat)) :=
-               match subs with
-               | [] => DbOk best
-               | s :: rest =>
-                 dbdo oc <- get_by_raw_truth_table d (substitute t0 pos s);
-                 match oc with
-                 | None => loop rest best
-                 | Some c =>
-                   let sz := gates_number c excl in
-                   match best with
-                   | None => loop rest (Some (c, sz))
-                   | Some (_, bsz) => if (sz <? bsz)%nat then loop rest (Some (c, sz)) else loop rest best
-                   end
-                 end
-               end) (all_bool_vectors (length pos)) None;
+  dbdo r <- model_loop d (defined_table tm) pos excl (all_bool_vectors (length pos)) None;
   DbOk (option_map fst r).
